@@ -305,6 +305,16 @@ func (e *Engine) Load(name string) (*Template, error) {
 
 	// If we failed to load the template from any loader
 	if template == nil {
+		// A loader that failed for another reason than not having the template
+		// (I/O error, broken compiled file, ...) is a failure in its own right: it
+		// is returned as the cause and does not count as "template not found"
+		for _, loaderErr := range loaderErrors {
+			if !errors.Is(loaderErr, ErrTemplateNotFound) {
+				LogError(loaderErr, fmt.Sprintf("Failed to load template '%s'", name))
+				return nil, fmt.Errorf("failed to load template '%s': %w", name, loaderErr)
+			}
+		}
+
 		// If we have collected errors from loaders, include them in the error message
 		if len(loaderErrors) > 0 {
 			errorDetails := strings.Builder{}
